@@ -418,6 +418,8 @@ def rule_c19_r2(model: Model) -> RuleResult:
                 continue
             if (form == 'None' and when is False) or (form == 'io.StringIO().getvalue()' and when is True):
                 continue
+            if when is True and re.fullmatch(r'\(io\.StringIO\(\) if %s else \$f\)\.getvalue\(\)' % IFX, form):
+                continue      # the buffer chosen by the same test, read under that test
             ok = False
         if ok:
             r.ok()
